@@ -44,6 +44,20 @@ MODES = {
 }
 
 
+LIBPANIC = re.compile(r"panic: [^\n]*\n[\s\S]{0,200}?goroutine \d+ \[running\]:\n([\s\S]{0,1500})")
+
+
+def is_library_panic(pm):
+    """The frame that panicked (the first one outside the Go runtime) is in the library's own source."""
+    ls = pm.group(1).split("\n\n")[0].split("\n")
+    for k in range(0, len(ls) - 1, 2):
+        fn, loc = ls[k], ls[k + 1]
+        if "/src/runtime/" in loc or fn.startswith("panic(") or fn.startswith("runtime."):
+            continue
+        return fn.startswith("github.com/pion/stun/v3") and "_test." not in fn and "zz_verif" not in loc
+    return False
+
+
 def run(ctx, mode):
     rin = ctx.replay_input()
     vec = ctx.path("client_vectors.ndjson")
@@ -92,7 +106,38 @@ def run(ctx, mode):
     vlib.log("GEN %d schedules" % len(scheds))
     h = ctx.harness("stun")
     trace = ctx.path("client_%s.ndjson" % mode)
-    ctx.drive(h, "TestVerifClientReplay", env={"VERIF_TRACE_OUT": trace, "VERIF_VECTORS": vec}, timeout=1500)
+    # a panic in a goroutine of the library takes the driver process down: the behaviour recorded so far is kept
+    # (the trace is flushed line by line), the panic becomes an event of the schedule it happened in, and a new
+    # process goes on with the next schedule
+    base, crashes = 0, 0
+    open(trace, "w").close()
+    while True:
+        part = ctx.path("client_part.ndjson")
+        rc, out = ctx.drive(h, "TestVerifClientReplay", env={"VERIF_TRACE_OUT": part, "VERIF_VECTORS": vec, "VERIF_TRACE_SYNC": 1,
+                                                            "VERIF_TR_BASE": base}, timeout=1500, ok_rc=(0, 1, 2))
+        with open(part) as fh:
+            lines = [ln for ln in fh if ln.endswith("\n")]
+        last = 0
+        for ln in reversed(lines):
+            try:
+                last = json.loads(ln)["tr"]
+                break
+            except (ValueError, KeyError):
+                continue
+        if rc != 0:
+            pm = LIBPANIC.search(out)
+            if not (pm and is_library_panic(pm)) or last <= base:
+                raise vlib.Inconclusive("driver TestVerifClientReplay failed rc=%d:\n%s" % (rc, out[-3000:]))
+            lines.append(json.dumps({"k": "libpanic", "tr": last, "report": pm.group(0)[:2500]}) + "\n")
+            vlib.log("library panic in schedule %d: %s" % (last, pm.group(0).split("\n")[0]))
+        with open(trace, "a") as fh:
+            fh.writelines(lines)
+        if rc == 0:
+            break
+        base, crashes = last, crashes + 1
+        if crashes >= 25:
+            ctx.notes.append("replay stopped after 25 library panics at schedule %d of %d" % (last, len(scheds)))
+            break
     files = ctx.shard(trace, vlib.NCPU * 2, group_key="tr")
     ctx.validate("ClientTrace", files, env={"VERIF_MODE": mode}, heap_gb=4, timeout=2400)
     ctx.add_samples(trace, 5, maxlen=400)
@@ -103,7 +148,8 @@ def run(ctx, mode):
         hr = ctx.harness("stun", race=True)
         ftrace = ctx.path("client_free_%s.ndjson" % mode)
         nfree = 10 if ctx.quick() else 80
-        rc, out = ctx.drive(hr, "TestVerifClientFree", env={"VERIF_TRACE_OUT": ftrace, "VERIF_FREE_RUNS": nfree, "VERIF_FREE_CHURN": 0 if ctx.quick() else 3000},
+        rc, out = ctx.drive(hr, "TestVerifClientFree", env={"VERIF_TRACE_OUT": ftrace, "VERIF_FREE_RUNS": nfree, "VERIF_FREE_CHURN": 0 if ctx.quick() else 3000,
+                                                         "VERIF_CLOSE_STORM": (0 if mode != "C15" else 400 if ctx.quick() else 4000)},
                             timeout=1800, ok_rc=(0, 1, 2, 66))
         races = [r for r in re.findall(r"WARNING: DATA RACE[\s\S]{0,4000}?==================", out)]
         if races:
@@ -112,8 +158,8 @@ def run(ctx, mode):
                 fh.write(json.dumps({"k": "race", "tr": 999999, "report": races[0][:3000]}) + "\n")
         elif rc != 0:
             # a panic inside the library (not in the harness) is the library's doing
-            pm = re.search(r"panic: [^\n]*\n[\s\S]{0,200}?goroutine \d+ \[running\]:\n([\s\S]{0,1500})", out)
-            if pm and re.search(r"/repo/(?!zz_verif)[a-z_]+\.go:\d+", pm.group(1).split("\n\n")[0]) and "zz_verif" not in pm.group(1).split("\n")[1]:
+            pm = LIBPANIC.search(out)
+            if pm and is_library_panic(pm):
                 with open(ftrace, "a") as fh:
                     fh.write(json.dumps({"k": "cfg", "tr": 999998, "maxattempts": 7, "rto": 1, "closeconn": True, "fallback": True}) + "\n")
                     fh.write(json.dumps({"k": "libpanic", "tr": 999998, "report": pm.group(0)[:2500]}) + "\n")
